@@ -3,6 +3,7 @@ import ast
 from ..model import *
 from ..util import *
 from ..paths import Cfg, evaluated
+from ..facts import PathFacts
 
 EXPLANATION = (
     "Static typestate analysis of the passive-port token. The pool attribute is located by role (the queue built in "
@@ -291,22 +292,23 @@ def rule_421(ctx):
     for h in callers:
         conn = p.handler_params(h)[0]
         good = False
-        for t in [n for n in walk_no_nested(h) if isinstance(n, ast.Try)]:
-            covers = any(isinstance(x, ast.Await) for s in t.body for x in walk_self(s))
-            for hd in t.handlers:
-                if not covers or hd.type is None:
-                    continue
-                if not any(any(p.issub(c, hn) for c in exhaustion) for hn in handler_names(hd)):
-                    continue
-                paths = Cfg(lambda n: [], p.issub).seq(hd.body)
-                ok_all = bool(paths)
-                for ev, out in paths:
-                    codes = [c.args[0].value for n in evaluated(ev) for c in walk_self(n)
-                             if is_reply(c, conn) and c.args and isinstance(c.args[0], ast.Constant)]
-                    ends = out[0] == "return" and isinstance(out[1], ast.Constant) and out[1].value is False
-                    if codes != ["421"] or not ends:
-                        ok_all = False
-                good = good or ok_all
+        seen_exc = False
+        all_ok = True
+        for ev, out in enum_paths(p, h):
+            hit = [e for e in ev if e[0] == "exc" and isinstance(e[1], str) and any(p.issub(c, e[1]) or p.issub(e[1], c) for c in exhaustion)]
+            if not hit or out[0] == "cut":
+                continue
+            pf = PathFacts(p, h, conn, ev, out)
+            if pf.infeasible:
+                continue
+            seen_exc = True
+            # replies emitted after the exception was caught
+            idx = ev.index(hit[0])
+            after = PathFacts(p, h, conn, ev[idx:], out)
+            codes = [c_ for c_, _n in after.replies]
+            if not (codes == ["421"] and out[0] == "return" and pf.ret is False):
+                all_ok = False
+        good = seen_exc and all_ok
         ctx.ob("C11.421", h, f"{h.name}: exhaustion of the port pool ({sorted(exhaustion)}) is answered with exactly one 421 and ends the session", good,
                f"{h.name}: pool exhaustion is not answered with 421 + session end", construct=f"{h.name}:no 421")
     ctx.floor("C11.421", 2, "listener-starting handlers")
